@@ -155,15 +155,21 @@ impl Ctl {
         g.parked.insert(actor, name);
         g.last_point.insert(actor, name);
         self.cv.notify_all();
-        loop {
-            let granted = *g.grants.get(&actor).unwrap_or(&0);
-            let seen = *g.seen.get(&actor).unwrap_or(&0);
-            if granted > seen || g.free_run {
-                g.seen.insert(actor, seen + 1);
-                return;
+        drop(g);
+        // the worker thread is about to block: hand its run queue (and LIFO slot) to another thread
+        tokio::task::block_in_place(|| {
+            let mut g = self.mu.lock().unwrap();
+            loop {
+                let granted = *g.grants.get(&actor).unwrap_or(&0);
+                let seen = *g.seen.get(&actor).unwrap_or(&0);
+                if granted > seen || g.free_run {
+                    g.seen.insert(actor, seen + 1);
+                    g.parked.remove(&actor);
+                    return;
+                }
+                g = self.cv.wait(g).unwrap();
             }
-            g = self.cv.wait(g).unwrap();
-        }
+        })
     }
     fn reset(&self, linked: &[bool]) {
         let mut g = self.mu.lock().unwrap();
@@ -354,6 +360,14 @@ impl<'a> Run<'a> {
         self.obs.steps.push((a as u64, code, call));
     }
     fn viol(&mut self, class: &str, what: String) {
+        let mut what = what;
+        if class == "stuck" && std::env::var("C11_DEBUG").is_ok() {
+            let log = std::fs::read_to_string(self.data.join("events.jsonl")).unwrap_or_default();
+            for (i, id) in self.ids.iter().enumerate() {
+                let kinds: Vec<String> = log.lines().filter_map(|l| serde_json::from_str::<Value>(l).ok()).filter(|v| v.get("session_id").and_then(|s| s.as_str()) == Some(id.as_str())).map(|v| v.get("type").and_then(|t| t.as_str()).unwrap_or("?").to_string()).collect();
+                what.push_str(&format!(" | actor {i}: {}", kinds.join(",")));
+            }
+        }
         if self.obs.violations.len() < 8 {
             self.obs.violations.push((class.to_string(), what));
         }
@@ -1030,7 +1044,24 @@ fn run_scenario(rt: &tokio::runtime::Runtime, ctl: &Arc<Ctl>, sc: &Scenario, set
     let obs = std::mem::replace(&mut run.obs, Obs { steps: vec![], ends_linked: vec![], violations: vec![], blocked_attempts: 0, ro_overlaps: 0, intrusions: 0 });
     ctl.mu.lock().unwrap().active = false;
     drop(run);
-    Outcome { gos, obs, done, frames, marks: marks.iter().map(|(a, w)| (*a as u64, *w)).collect() }
+    // attribute every marker to the call that wrote it: the j-th section of a loop session belongs to
+    // its j-th shell call
+    let mut sect: BTreeMap<usize, usize> = BTreeMap::new();
+    let mut keyed = vec![];
+    for (a, w) in &marks {
+        let j = *sect.get(a).unwrap_or(&0);
+        let call = if sc.actors[*a].kind == Loop {
+            let idx: Vec<usize> = sc.actors[*a].calls.iter().enumerate().filter(|(_, k)| k.marks()).map(|(x, _)| x).collect();
+            idx.get(j).copied().unwrap_or(255)
+        } else {
+            0
+        };
+        if *w == 1 {
+            sect.insert(*a, j + 1);
+        }
+        keyed.push((*a as u64 * 256 + call as u64, *w));
+    }
+    Outcome { gos, obs, done, frames, marks: keyed }
 }
 
 // ------------------------------------------------------------------------------------ generation
